@@ -31,20 +31,27 @@ pub(crate) fn selection_set(p: &mut Parser) {
 }
 
 pub(crate) fn field_set(p: &mut Parser) {
-    if let Some(T!['{']) = p.peek() {
-        selection_set(p)
-    } else {
-        let _g = p.start_node(SyntaxKind::SELECTION_SET);
-        // We need to enforce recursion limits to prevent
-        // excessive resource consumption or (more seriously)
-        // stack overflows.
-        if p.recursion_limit.check_and_increment() {
-            p.limit_err("parser recursion limit reached");
-            return;
-        }
-        selection(p);
-        p.recursion_limit.decrement();
+    // This is the root of a standalone syntax tree: the node is started before any token is
+    // taken from the lexer so that leading ignored tokens and lexer errors end up inside it,
+    // and anything after the selection set is an error that is kept inside it as well.
+    let _g = p.start_node(SyntaxKind::SELECTION_SET);
+    let has_braces = matches!(p.peek(), Some(T!['{']));
+    if has_braces {
+        p.bump(S!['{']);
     }
+    // We need to enforce recursion limits to prevent
+    // excessive resource consumption or (more seriously)
+    // stack overflows.
+    if p.recursion_limit.check_and_increment() {
+        p.limit_err("parser recursion limit reached");
+        return;
+    }
+    selection(p);
+    p.recursion_limit.decrement();
+    if has_braces {
+        p.expect(T!['}'], S!['}']);
+    }
+    p.expect_end_of_input();
 }
 
 /// See: https://spec.graphql.org/October2021/#Selection
